@@ -20,7 +20,10 @@ use crate::{
     OverflowError,
 };
 
-use num_bigint::BigInt;
+use num_bigint::{
+    BigInt,
+    Sign,
+};
 use num_traits::{
     Signed,
     ToPrimitive,
@@ -124,7 +127,7 @@ impl Integer for BigInt {
     fn from_le_bytes<I: Iterator<Item = u8>>(bytes: I) -> Self {
         let buf = bytes.collect::<Vec<_>>();
 
-        BigInt::from_signed_bytes_le(&buf)
+        BigInt::from_bytes_le(Sign::Plus, &buf)
     }
 
     fn from_i32(n: i32) -> Self {
